@@ -129,19 +129,20 @@ def pattern_pairs(rng, patterns, pool, feats, n, slashes=('/', '\\'), deep=None)
 
 
 def short_lived_suite(ctx, apply_binary_rules, recorded, rounds):
-    """`recorded`: (text of x, text of y, encoded result) obtained on categories the check keeps alive. The same pairs
+    from oracles import sig
+    """`recorded`: (text of x, text of y, encoded result, sig of x, sig of y) obtained on categories the check keeps alive. The same pairs
     again on categories that exist for one call only — parsed afresh from their text, combined, released (a parser
     builds and drops categories all the time, so addresses are reused): the result must be the recorded one"""
     from depccg.cat import Category
     n = 0
     for rnd in range(rounds):
-        for tx, ty, want in recorded:
+        for tx, ty, want, sx0, sy0 in recorded:
             try:
                 x, y = Category.parse(tx), Category.parse(ty)
             except Exception:
                 continue
-            if str(x) != tx or str(y) != ty:
-                continue
+            if sig(x) != sx0 or sig(y) != sy0:
+                continue        # a value no text denotes (built by a generator): it cannot be rebuilt
             _, out = call_rules(apply_binary_rules, x, y)
             n += 1
             ctx.evaluations += 1
